@@ -461,7 +461,7 @@ class H:
 # ----------------------------------------------------------------------------------------------
 class Harness:
     def __init__(self, fn, name, tiers, max_paths, timeout_ms, allowed_exc, doc, functions, bounds, stubs,
-                 escalate_s, kind, strata, max_decisions=400):
+                 escalate_s, kind, strata, max_decisions=400, algcert_s=6.0):
         self.fn, self.name, self.tiers = fn, name, tiers
         self.max_paths, self.timeout_ms, self.allowed_exc = max_paths, timeout_ms, allowed_exc
         self.doc, self.functions, self.bounds, self.stubs = doc, functions, bounds, stubs
@@ -469,16 +469,17 @@ class Harness:
         self.kind = kind
         self.strata = strata
         self.max_decisions = max_decisions
+        self.algcert_s = algcert_s
 
 
 REGISTRY = {}
 
 
 def harness(name, tiers=('quick', 'thorough'), max_paths=64, timeout_ms=700, allowed_exc=(), functions=(), bounds='',
-            stubs=(), escalate_s=None, kind='property', strata=None, max_decisions=400):
+            stubs=(), escalate_s=None, kind='property', strata=None, max_decisions=400, algcert_s=6.0):
     def deco(fn):
         REGISTRY[name] = Harness(fn, name, tiers, max_paths, timeout_ms, allowed_exc, (fn.__doc__ or '').strip(),
-                                 list(functions), bounds, list(stubs), escalate_s, kind, strata, max_decisions)
+                                 list(functions), bounds, list(stubs), escalate_s, kind, strata, max_decisions, algcert_s)
         return fn
     return deco
 
